@@ -15,7 +15,9 @@ package services
 
 import (
 	"context"
+	"encoding/binary"
 	"fmt"
+	"io"
 	"net"
 
 	"github.com/honeytrap/honeytrap/director"
@@ -54,7 +56,7 @@ func (s *dnsProxy) SetChannel(c pushers.Channel) {
 func (s *dnsProxy) Handle(ctx context.Context, conn net.Conn) error {
 	defer conn.Close()
 
-	buff := [65535]byte{}
+	buff := [2 + 65535]byte{}
 
 	// the server hands over a wrapped connection, so look at the network and not at the concrete type
 	if network := conn.RemoteAddr().Network(); network == "udp" {
@@ -102,13 +104,13 @@ func (s *dnsProxy) Handle(ctx context.Context, conn net.Conn) error {
 
 		return err
 	} else if network == "tcp" {
-		n, err := conn.Read(buff[:])
+		n, err := readFramedDNS(conn, buff[:])
 		if err != nil {
 			return err
 		}
 
 		req := new(dns.Msg)
-		if err := req.Unpack(buff[:n]); err != nil {
+		if err := req.Unpack(buff[2:n]); err != nil {
 			return err
 		}
 
@@ -136,7 +138,7 @@ func (s *dnsProxy) Handle(ctx context.Context, conn net.Conn) error {
 			return err
 		}
 
-		if n, err = conn2.Read(buff[:]); err != nil {
+		if n, err = readFramedDNS(conn2, buff[:]); err != nil {
 			return err
 		}
 
@@ -148,4 +150,21 @@ func (s *dnsProxy) Handle(ctx context.Context, conn net.Conn) error {
 	} else {
 		return nil
 	}
+}
+
+// readFramedDNS reads one DNS message as it travels over TCP: prefixed with its length in
+// two bytes (RFC 1035, 4.2.2), in however many segments it arrives. It returns the number of
+// bytes of b used, prefix included.
+func readFramedDNS(r io.Reader, b []byte) (int, error) {
+	if _, err := io.ReadFull(r, b[:2]); err != nil {
+		return 0, err
+	}
+
+	n := 2 + int(binary.BigEndian.Uint16(b[:2]))
+
+	if _, err := io.ReadFull(r, b[2:n]); err != nil {
+		return 0, err
+	}
+
+	return n, nil
 }
